@@ -184,6 +184,9 @@ def outstationStep (o : OSt) (line : String) : OSt × List String :=
         | "add", [ty, idx, cls, dbd] => match ptOfCode ty, idx.toNat?, cls.toNat?, dbd.toNat? with
           | some t, some i, some c, some d => some (.add t (i % 65536 + 65536 * d) c) | _, _, _, _ => none
         | "cut", [] => some .cut
+        -- the application disables and re-enables communications: `run` returns `Stop(Disable)` instead of
+        -- a link error and performs the same end-of-session resets; the next session starts like after a cut
+        | "disable", [] => some .cut
         | "appiin", [b] => b.toNat?.map fun b => .setScript fun sc => { sc with appIin := b }
         | "ctl", [l] => ((l.splitOn ",").mapM String.toNat?).map fun l => .setScript fun sc => { sc with ctl := l, ctlPos := 0 }
         | "delay", [b] => b.toNat?.map fun b => .setScript fun sc => { sc with delayMs := b }
@@ -194,6 +197,8 @@ def outstationStep (o : OSt) (line : String) : OSt × List String :=
       | none => (o, ["bad-op", "ok"])
       | some inp =>
         let (s, outs) := Outstation.step o.env s inp
-        (trackSeqs { o with st := some s } outs, canon outs ++ ["ok"])
+        let lines := canon outs
+        let lines := if op == "disable" then lines.map fun l => if l == "session link stdio UnexpectedEof" then "session stop Disable" else l else lines
+        (trackSeqs { o with st := some s } outs, lines ++ ["ok"])
 
 end Dnp3.Driver
